@@ -1,10 +1,10 @@
 package rules
 
 import (
-	"sort"
-	"go/types"
 	"go/ast"
 	"go/token"
+	"go/types"
+	"sort"
 	"strings"
 
 	"jsverif/internal/core"
